@@ -94,11 +94,14 @@ func TestDrv_Pump(t *testing.T) {
 	// the real attack behind the real pump: a signal while the attack is pacing, while it is winding down with hits
 	// still in flight, no signal at all, and two signals
 	var aops []map[string]any
-	type apCase struct{ hits, workers, latency, signalMs, signals int }
+	type apCase struct{ hits, workers, latency, signalMs, signals, durationMs int }
 	var acases []apCase
-	for _, c := range []apCase{{4, 2, 120, 0, 0}, {4, 2, 120, 30, 1}, {4, 2, 120, 170, 1}, {2, 2, 150, 60, 1}, {6, 3, 100, 140, 1}, {4, 2, 120, 150, 2}, {1, 1, 100, 40, 1}} {
+	for _, c := range []apCase{{4, 2, 120, 0, 0, 0}, {4, 2, 120, 30, 1, 0}, {4, 2, 120, 170, 1, 0}, {2, 2, 150, 60, 1, 0}, {6, 3, 100, 140, 1, 0}, {4, 2, 120, 150, 2, 0}, {1, 1, 100, 40, 1, 0},
+		// the attack ends because its duration is over while hits are still in flight; one signal arrives in that window
+		{hits: 1000, workers: 2, latency: 150, signalMs: 220, signals: 1, durationMs: 40}, {hits: 1000, workers: 3, latency: 120, signalMs: 170, signals: 1, durationMs: 30},
+		{hits: 1000, workers: 2, latency: 100, signalMs: 0, signals: 0, durationMs: 30}} {
 		acases = append(acases, c)
-		aops = append(aops, map[string]any{"op": "attackpump", "hits": c.hits, "workers": c.workers, "latency_ms": c.latency, "signal_ms": c.signalMs, "signals": c.signals})
+		aops = append(aops, map[string]any{"op": "attackpump", "hits": c.hits, "workers": c.workers, "latency_ms": c.latency, "signal_ms": c.signalMs, "signals": c.signals, "duration_ms": c.durationMs})
 	}
 	ares, err := runMain(dir, aops)
 	if err != nil {
@@ -119,7 +122,7 @@ func TestDrv_Pump(t *testing.T) {
 			e = "panic: " + p
 		}
 		c := acases[i]
-		tr.Emit("AttackPump", KV{"hits": c.hits, "workers": c.workers, "latency_ms": c.latency, "signal_ms": c.signalMs, "signals": c.signals,
+		tr.Emit("AttackPump", KV{"hits": c.hits, "workers": c.workers, "latency_ms": c.latency, "signal_ms": c.signalMs, "signals": c.signals, "duration_ms": c.durationMs,
 			"started": int(started), "encoded": enc, "returned": ret, "err": e})
 	}
 	writeJSON(filepath.Join(dir, "pump.summary.json"), KV{"scripts": len(scripts), "max_len": maxLen, "attack_pump_runs": len(acases)})
